@@ -65,3 +65,4 @@ def run(chk, replay=None):
     k1.run_unit(_Keyed(chk, "io_epoll"), io.EpollIoCancel(1))
     for u in io.extra_units():
         k1.run_unit(_Keyed(chk, u.ctx), u)
+    io.run_uring(chk)
